@@ -24,8 +24,8 @@ CONSTANTS Files,       \* e.g. {"a", "b", "c"}; "a" is the root
           MaxOps,      \* body operations per session
           Modes        \* subset of {"recursive", "single"}
 
-VARIABLES inc, spelling, eol, mode, phase, keys, edited, reverted, removed, added, addedEmpty, raised, nops, hist
-vars == <<inc, spelling, eol, mode, phase, keys, edited, reverted, removed, added, addedEmpty, raised, nops, hist>>
+VARIABLES inc, spelling, eol, mode, phase, keys, edited, reverted, removed, added, addedEmpty, addedDeep, raised, nops, hist
+vars == <<inc, spelling, eol, mode, phase, keys, edited, reverted, removed, added, addedEmpty, addedDeep, raised, nops, hist>>
 
 IsPrefix(s, t) == Len(s) <= Len(t) /\ SubSeq(t, 1, Len(s)) = s
 
@@ -50,7 +50,7 @@ EnterFails == \E f \in Reach : Dangling(f)
 Init ==
     /\ inc \in [Files -> IncMenu]
     /\ spelling \in Spellings /\ eol \in Eols /\ mode \in Modes
-    /\ phase = "start" /\ keys = {} /\ edited = {} /\ reverted = {} /\ removed = {} /\ added = FALSE /\ addedEmpty = FALSE
+    /\ phase = "start" /\ keys = {} /\ edited = {} /\ reverted = {} /\ removed = {} /\ added = FALSE /\ addedEmpty = FALSE /\ addedDeep = FALSE
     /\ raised = FALSE /\ nops = 0 /\ hist = <<>>
 
 Enter ==
@@ -61,28 +61,32 @@ Enter ==
        ELSE /\ phase' = "body" /\ raised' = FALSE
             /\ keys' = IF mode = "recursive" THEN Reach ELSE {"a"}
             /\ hist' = Append(hist, [op |-> "enter", exc |-> "", keys |-> IF mode = "recursive" THEN Reach ELSE {"a"}])
-    /\ UNCHANGED <<inc, spelling, eol, mode, edited, reverted, removed, added, addedEmpty, nops>>
+    /\ UNCHANGED <<inc, spelling, eol, mode, edited, reverted, removed, added, addedEmpty, addedDeep, nops>>
 
 Body(op, f) == /\ phase = "body" /\ nops < MaxOps /\ nops' = nops + 1
                /\ hist' = Append(hist, [op |-> op, f |-> f])
                /\ UNCHANGED <<inc, spelling, eol, mode, phase, keys, raised>>
 
 EditModel(f) == f \in keys \ removed /\ f \notin edited /\ edited' = edited \cup {f} /\ Body("edit", f)
-                /\ UNCHANGED <<reverted, removed, added, addedEmpty>>
+                /\ UNCHANGED <<reverted, removed, added, addedEmpty, addedDeep>>
 EditRevert(f) == f \in keys \ (removed \cup edited \cup reverted) /\ reverted' = reverted \cup {f} /\ Body("edit-revert", f)
-                 /\ UNCHANGED <<edited, removed, added, addedEmpty>>
+                 /\ UNCHANGED <<edited, removed, added, addedEmpty, addedDeep>>
 DelKey(f) == mode = "recursive" /\ f \in keys \ removed /\ f # "a" /\ removed' = removed \cup {f} /\ Body("del", f)
-             /\ UNCHANGED <<edited, reverted, added, addedEmpty>>
+             /\ UNCHANGED <<edited, reverted, added, addedEmpty, addedDeep>>
 AddKey == mode = "recursive" /\ ~added /\ added' = TRUE /\ Body("add", "new")
-          /\ UNCHANGED <<edited, reverted, removed, addedEmpty>>
+          /\ UNCHANGED <<edited, reverted, removed, addedEmpty, addedDeep>>
 \* a new entry whose model prints the empty text must still be created
 AddEmptyKey == mode = "recursive" /\ ~addedEmpty /\ addedEmpty' = TRUE /\ Body("addempty", "empty")
-               /\ UNCHANGED <<edited, reverted, removed, added>>
+               /\ UNCHANGED <<edited, reverted, removed, added, addedDeep>>
+\* a new entry two missing directory levels below the root
+AddDeepKey == mode = "recursive" /\ ~addedDeep /\ addedDeep' = TRUE /\ Body("adddeep", "deep")
+              /\ UNCHANGED <<edited, reverted, removed, added, addedEmpty>>
 
 \* expected disk after the session: per file <<exists, content, rewritten>>
 Final(ok) ==
-    [f \in Files \cup {"new", "empty"} |->
+    [f \in Files \cup {"new", "empty", "deep"} |->
         IF f = "new" THEN [exists |-> ok /\ added, content |-> "new", rewritten |-> ok /\ added]
+        ELSE IF f = "deep" THEN [exists |-> ok /\ addedDeep, content |-> "new", rewritten |-> ok /\ addedDeep]
         ELSE IF f = "empty" THEN [exists |-> ok /\ addedEmpty, content |-> "empty", rewritten |-> ok /\ addedEmpty]
         ELSE IF ok /\ f \in removed THEN [exists |-> FALSE, content |-> "", rewritten |-> FALSE]
         ELSE IF ok /\ f \in edited THEN [exists |-> TRUE, content |-> "edited", rewritten |-> TRUE]
@@ -92,9 +96,9 @@ Exit(r) ==
     /\ phase = "body"
     /\ phase' = "done" /\ raised' = r
     /\ hist' = Append(hist, [op |-> IF r THEN "raise" ELSE "exit", final |-> Final(~r)])
-    /\ UNCHANGED <<inc, spelling, eol, mode, keys, edited, reverted, removed, added, addedEmpty, nops>>
+    /\ UNCHANGED <<inc, spelling, eol, mode, keys, edited, reverted, removed, added, addedEmpty, addedDeep, nops>>
 
-Next == Enter \/ (\E f \in Files : EditModel(f) \/ EditRevert(f) \/ DelKey(f)) \/ AddKey \/ AddEmptyKey \/ Exit(TRUE) \/ Exit(FALSE)
+Next == Enter \/ (\E f \in Files : EditModel(f) \/ EditRevert(f) \/ DelKey(f)) \/ AddKey \/ AddEmptyKey \/ AddDeepKey \/ Exit(TRUE) \/ Exit(FALSE)
 
 (* Design invariants *)
 KeysAreReachable == phase = "body" /\ mode = "recursive" => keys = Reach /\ \A f \in keys : ~Dangling(f)
